@@ -1,10 +1,14 @@
+from lib.translate_kes import translate as translate_kes
+
 SPEC = {
     "id": "C12",
     "level": "proof",
     "lean_modules": ["PallasVerif.Props.C12"],
     "required_theorems": ["evolve_keygen", "period_after_updates", "pk_invariant", "update_fails_iff", "verify_own_period",
                           "cverify_own_period", "verify_other_period_fails", "cverify_other_period_fails", "sym_verify_iff",
-                          "sym_cverify_iff", "sumSig_bytes_roundtrip", "cSig_bytes_roundtrip"],
+                          "sym_cverify_iff", "sumSig_bytes_roundtrip", "cSig_bytes_roundtrip", "gen_unknowns", "gen_sizes", "gen_instantiations",
+                          "keyBytes_length"],
+    "translators": [translate_kes],
     "streams": [{"name": "kes", "quick": 28, "thorough": 420}],
     "rule": "a case = one key: construction alternates sum / compact sum, depth cycles through 1..7 (quick: 1,2,3,4 twice then 5,6,7,3,4,5), "
             "random 32-byte seed (all-zero and all-ff included); depths 1..4 (thorough: 1..5): at EVERY period get_period, to_pk, sign a random "
